@@ -55,6 +55,7 @@ ASSUMPTIONS = [
 ]
 
 KINDS = ["error", "panic", "abort", "kill9", "segv", "oom"]
+SLOTS = 4   # links run 4 at a time, each in its own directory; results are consumed in case order
 FAULT_RS = os.path.join(runner.REPO, "libwild", "src", "verif_api", "fault.rs")
 
 ASM = r"""
@@ -143,8 +144,16 @@ class Env:
         self.shim = os.path.join(d, "shim.so") if rc == 0 else None
         self.base_env = {k: v for k, v in os.environ.items() if not k.startswith("WILD_") and k not in ("MAKEFLAGS", "LD_PRELOAD")}
         self.base_env["RUST_BACKTRACE"] = "0"
-        self.out = os.path.join(d, "out")
+        self.obj = os.path.join(d, "hello.o")
+        self.outs = []
+        for k in range(SLOTS):
+            os.makedirs(os.path.join(d, f"slot{k}"), exist_ok=True)
+            self.outs.append(os.path.join(d, f"slot{k}", "out"))
+        self.out = self.outs[0]
         self.wild = private_wild(ctx)
+        # no core files from the abort/segv/oom runs (inherited by every child; avoids preexec_fn)
+        hard = resource.getrlimit(resource.RLIMIT_CORE)[1]
+        resource.setrlimit(resource.RLIMIT_CORE, (0, hard))
         # reference outputs (no fault), one per thread mode; must agree
         self.ref = None
         for setup in ("fork", "nofork"):
@@ -161,9 +170,9 @@ class Env:
         if r.returncode != 0 or r.stdout != b"hello\n":
             raise runner.BuildError("reference output does not run")
 
-    def link(self, setup, threads, point, kind, prior, ref=False):
-        """Runs one link. Returns (python returncode, output state, stderr tail)."""
-        out = self.out
+    def link(self, setup, threads, point, kind, prior, ref=False, slot=0):
+        """Runs one link (in the private directory of `slot`). Returns (python returncode, output state, stderr tail)."""
+        out = self.outs[slot]
         for p in (out, out + ".delete"):
             try:
                 os.unlink(p)
@@ -174,7 +183,7 @@ class Env:
                 f.write(b"#!/bin/sh\necho stale\n")
             os.chmod(out, 0o755)
         env = dict(self.base_env)
-        args = [self.wild, "hello.o", "-o", out]
+        args = [self.wild, self.obj, "-o", out]
         if setup == "nofork":
             args.append("--no-fork")
         if threads != "default":
@@ -184,21 +193,17 @@ class Env:
             env["WV_SHIM"] = "fork" if setup == "forkfail" else "pipe"
         if point is not None:
             env["WILD_VERIF_FAULT"] = f"{point}:{kind}"
-
-        def no_core():
-            resource.setrlimit(resource.RLIMIT_CORE, (0, 0))
-
-        p = subprocess.run(args, cwd=self.dir, env=env, stdout=subprocess.PIPE, stderr=subprocess.PIPE, timeout=60, preexec_fn=no_core)
+        p = subprocess.run(args, cwd=os.path.dirname(out), env=env, stdout=subprocess.PIPE, stderr=subprocess.PIPE, timeout=120)
         # The state of the output is read immediately: the property is about the moment the invoker sees the exit status.
-        state = "complete" if ref else self.state()
+        state = "complete" if ref else self.state(out)
         return p.returncode, state, p.stderr[-300:].decode("utf-8", "replace")
 
-    def state(self):
+    def state(self, out):
         try:
-            st = os.stat(self.out)
+            st = os.stat(out)
+            data = open(out, "rb").read()
         except FileNotFoundError:
             return "absent"
-        data = open(self.out, "rb").read()
         if data != self.ref:
             if data.startswith(b"#!/bin/sh\necho stale"):
                 return "stale"
@@ -206,7 +211,7 @@ class Env:
         if not st.st_mode & stat.S_IXUSR:
             return "not-executable"
         try:
-            r = subprocess.run([self.out], stdout=subprocess.PIPE, timeout=10)
+            r = subprocess.run([out], stdout=subprocess.PIPE, timeout=60)
         except OSError as e:
             return "not-runnable"
         return "complete" if (r.returncode == 0 and r.stdout == b"hello\n") else "wrong-behaviour"
@@ -293,8 +298,22 @@ def run(ctx):
 
     lines, impl, meta = [], [], []
     bad = {}
-    for (setup, threads, point, kind, prior) in cases:
-        rc, state, err = env.link(setup, threads, point, kind, prior)
+    import concurrent.futures
+    import queue
+    slots = queue.Queue()
+    for k in range(SLOTS):
+        slots.put(k)
+
+    def one(case):
+        k = slots.get()
+        try:
+            return env.link(*case, slot=k)
+        finally:
+            slots.put(k)
+
+    with concurrent.futures.ThreadPoolExecutor(max_workers=SLOTS) as ex:
+        results = list(ex.map(one, cases))
+    for (setup, threads, point, kind, prior), (rc, state, err) in zip(cases, results):
         loc = loc_of(point, setup) if point else None
         mk = kind if (point and loc) else "none"
         line = f"proc-obs {setup} {mk} {loc or '-'}"
